@@ -41,7 +41,7 @@ REPO = os.environ.get("VERIF_REPO", "/repo")
 VERIF = os.path.dirname(os.path.dirname(os.path.abspath(__file__)))
 CACHE = os.environ.get("VERIF_CACHE", os.path.join(VERIF, ".cache"))
 STUBS = os.path.join(VERIF, "stubs")
-FRONTEND_VERSION = "cxx-11"
+FRONTEND_VERSION = "cxx-13"
 
 CLANG = "clang++"
 
@@ -283,6 +283,39 @@ def src_token(n):
     return _srcs[p][off:off + tl].decode("utf-8", "replace") or "?unresolved"
 
 
+_WIDTH = {"long": 64, "unsigned long": 64, "long long": 64, "unsigned long long": 64, "int": 32, "unsigned int": 32, "short": 16, "unsigned short": 16,
+          "signed char": 8, "unsigned char": 8, "char": 8, "bool": 8}
+
+
+def int_width(t):
+    if not t:
+        return None
+    q = t.get("desugaredQualType") or t.get("qualType") or ""
+    q = q.replace("const ", "").strip()
+    if q in _WIDTH:
+        return _WIDTH[q]
+    q2 = (t.get("qualType") or "").replace("const ", "").strip()
+    return {"int64_t": 64, "uint64_t": 64, "size_t": 64, "ssize_t": 64, "int32_t": 32, "uint32_t": 32, "int16_t": 16, "uint16_t": 16, "int8_t": 8, "uint8_t": 8}.get(q2)
+
+
+def is_floating(t):
+    if not t:
+        return False
+    q = (t.get("desugaredQualType") or t.get("qualType") or "").replace("const ", "").strip()
+    return q in ("double", "float", "long double") or q.startswith("std::complex") or q.startswith("complex<")
+
+
+def _is_const_expr(n):
+    k = n.get("kind")
+    if k in ("IntegerLiteral", "CharacterLiteral", "CXXBoolLiteralExpr", "UnaryExprOrTypeTraitExpr"):
+        return True
+    if k in ("ParenExpr", "ImplicitCastExpr", "CStyleCastExpr", "UnaryOperator", "ConstantExpr") and n.get("inner"):
+        return all(_is_const_expr(c) for c in n["inner"])
+    if k == "BinaryOperator" and n.get("inner"):
+        return all(_is_const_expr(c) for c in n["inner"])
+    return False
+
+
 class Lower:
     def __init__(self, index):
         self.ix = index
@@ -505,6 +538,10 @@ class Lower:
         if k in TRANSPARENT:
             if k in ("CXXFunctionalCastExpr", "CStyleCastExpr") and not inner:
                 return ("ctor", clean_type(_qt(n)), (), line)
+            if k == "ImplicitCastExpr" and n.get("castKind") == "IntegralCast" and inner:
+                wt, wf = int_width(n.get("type")), int_width(inner[0].get("type"))
+                if wt and wf and wt < wf and inner[0].get("kind") not in ("IntegerLiteral", "CharacterLiteral", "CXXBoolLiteralExpr", "UnaryOperator") and not _is_const_expr(inner[0]):
+                    return ("narrow", "%d<-%d" % (wt, wf), clean_type(_qt(n)), self.expr(inner[0]))
             return self.expr(inner[0])
         if k == "SubstNonTypeTemplateParmExpr":
             real = [c for c in inner if c.get("kind") and not c["kind"].endswith("Decl")]
@@ -546,9 +583,14 @@ class Lower:
                 return ("assign", a, b)
             if op == ",":
                 return ("comma", a, b)
+            if op == "/" and is_floating(n.get("type")):
+                op = "f/"   # floating-point division: no trap on a zero divisor (normalised back to '/' by kspec.cexpr)
             return ("bin", op, a, b)
         if k == "CompoundAssignOperator":
-            return ("aug", n["opcode"][:-1], self.expr(inner[0]), self.expr(inner[1]))
+            op = n["opcode"][:-1]
+            if op == "/" and is_floating(n.get("computeResultType") or n.get("type")):
+                op = "f/"
+            return ("aug", op, self.expr(inner[0]), self.expr(inner[1]))
         if k == "UnaryOperator":
             op = n["opcode"]
             a = self.expr(inner[0])
